@@ -538,9 +538,12 @@ func (env *SpecEnv) index(x SIndex) Val {
 			env.typedFact(r)
 			return r
 		case *types.Map:
-			_, _, vk, vs, _, _ := env.a.mapHeaps(env.st, u)
+			dk, ds, vk, vs, _, _ := env.a.mapHeaps(env.st, u)
 			i = env.a.convKey(env.st, i, u.Key())
-			return Val{S: sel(sel(env.vc.getHeap(env.st, vk, vs), base.S), i.S), Sort: g.sortOf(u.Elem()), T: u.Elem()}
+			// Go semantics: the zero value for absent keys
+			present := and(not(eq(base.S, "0")), sel(sel(env.vc.getHeap(env.st, dk, ds), base.S), i.S))
+			z := env.a.zero(u.Elem())
+			return Val{S: ite(present, sel(sel(env.vc.getHeap(env.st, vk, vs), base.S), i.S), z.S), Sort: g.sortOf(u.Elem()), T: u.Elem()}
 		case *types.Basic:
 			if base.Sort == sStr {
 				return Val{S: app("str_at", base.S, i.S), Sort: sInt}
@@ -794,6 +797,40 @@ func (env *SpecEnv) call(x SCall) Val {
 		return Val{S: g.rangeFact(t, v.S), Sort: sBool}
 	case "top":
 		return Val{S: env.st.top, Sort: sInt}
+	case "mkstruct":
+		// mkstruct(pkg.Type, field values in declaration order)
+		ts := specExprString(x.Args[0])
+		t, srt := env.eng.specType(ts, env.pkg)
+		si := g.structInfoOf(t)
+		if t == nil || si == nil {
+			env.fail("mkstruct: unknown struct type %s", ts)
+		}
+		if len(x.Args)-1 != len(si.Fields) {
+			env.fail("mkstruct(%s): expected %d field values", ts, len(si.Fields))
+		}
+		var fs []string
+		for i := range si.Fields {
+			v := arg(i + 1)
+			if v.Sort == "nil" {
+				v = env.a.zero(si.Fields[i].T)
+			}
+			if v.Sort != si.Fields[i].Sort {
+				env.fail("mkstruct(%s): field %s has sort %s, want %s", ts, si.Fields[i].Name, v.Sort, si.Fields[i].Sort)
+			}
+			fs = append(fs, v.S)
+		}
+		return Val{S: app("mk_"+si.Sort, fs...), Sort: srt, T: t}
+	case "update":
+		// update(array, index, value)
+		arr, idx, v := arg(0), arg(1), arg(2)
+		return Val{S: store(arr.S, idx.S, v.S), Sort: arr.Sort}
+	case "zero":
+		ts := specExprString(x.Args[0])
+		t, _ := env.eng.specType(ts, env.pkg)
+		if t == nil {
+			env.fail("zero: unknown type %s", ts)
+		}
+		return env.a.zero(t)
 	}
 	// ghost fields
 	if gh, ok := g.ghosts[x.Fun]; ok {
